@@ -97,6 +97,12 @@ func (c *Ctx) checkNewChordBase() {
 
 func ruleApply(c *Ctx) {
 	c.checkNewChordBase()
+	if fn := c.fn("play", "Key.Apply"); fn != nil {
+		if problem, n, ok := c.chordPipelineByFolding(); ok {
+			c.site(1)
+			c.check(problem == "", "play.Key.Apply|pipeline", c.pos(fn.Pos()), fname(fn), fmt.Sprintf("%d chords folded end to end (builder, validated map, NewKey, NewChord, Apply): every built-in symbol by name and by display on C, four symbols in all 28 keys on four roots over four basses: bass an octave below the root, then the chord's intervals parent first", n), "from the built-in dictionary through Builder.Build, NewKey and NewChord to Key.Apply: "+problem)
+		}
+	}
 	fn := c.fn("play", "Key.Apply")
 	if fn == nil {
 		c.missing("play.Key.Apply")
@@ -181,7 +187,7 @@ func ruleApply(c *Ctx) {
 		}
 	}
 	for _, e := range emits {
-		af := c.affine(fn, e.val)
+		af := c.expandReceiverFields(fn, c.affine(fn, e.val))
 		l := enclosingRangeLoop(e.in.Block())
 		if af.bad != "" {
 			c.bad(name+"|emit", c.pos(e.in.Pos()), name, "an emitted pitch is not an affine sum: "+af.bad)
@@ -352,6 +358,15 @@ func rulePlayLoop(c *Ctx) {
 	if fn == nil {
 		c.missing("play.MIDIWriter.Write")
 		return
+	}
+	if !c.playPipelineChecked {
+		c.playPipelineChecked = true
+		for _, n := range []int{1, 2, 3} {
+			if problem, ops, ok := c.playPipelineByFolding(n); ok {
+				c.site(1)
+				c.check(problem == "", fmt.Sprintf("play|pipeline|tracks=%d", n), c.pos(fn.Pos()), fname(fn), fmt.Sprintf("a piece of ten instances folded from writeToPlay to the tracks: %d ops on %d track(s), each at its tick, on its track, with its pitch, velocity and contents", ops, n), "a piece of ten instances, folded from cmd.writeCmdArgs.writeToPlay to the ops in the tracks: "+problem)
+			}
+		}
 	}
 	c.checkSoleWriterImpl()
 	c.site(1)
@@ -1750,6 +1765,28 @@ func ruleBuilder(c *Ctx) {
 		nNew := len(findRegion(region, func(ci ssa.CallInstruction) bool { return calleeName(ci.Common()) == "chord.NewMap" }))
 		c.check(nNew == 1, name+"|NewMap", c.pos(fn.Pos()), name, "built through NewMap (validated)", "Builder.Build no longer goes through NewMap: references are not validated")
 	}
+	// what is registered stays registered, in the order it was given: nothing is deleted from the two indexes while they
+	// are built, and the definitions are not re-ordered before `later wins` is applied to them
+	for _, spec := range []struct{ pkg, fn string }{{"chord", "Builder.Build"}, {"cmd", "newChordBuilder"}} {
+		f0 := c.fn(spec.pkg, spec.fn)
+		if f0 == nil {
+			continue
+		}
+		c.site(1)
+		problem := ""
+		for _, f := range c.regionFuncChainsList(f0) {
+			for _, ci := range callsIn(f) {
+				n := calleeName(ci.Common())
+				switch {
+				case n == "builtin.delete", n == "builtin.clear", strings.HasPrefix(n, "maps.DeleteFunc"):
+					problem = fname(f) + " deletes entries (" + c.pos(ci.Pos()) + "): a name or a symbol registered earlier can disappear from the dictionary"
+				case strings.HasPrefix(n, "slices.Sort"), strings.HasPrefix(n, "sort."), strings.HasPrefix(n, "slices.Reverse"):
+					problem = fname(f) + " re-orders the definitions (" + c.pos(ci.Pos()) + "): which of two definitions of one name wins no longer follows the order built-ins first, then the files as given"
+				}
+			}
+		}
+		c.check(problem == "", spec.pkg+"."+spec.fn+"|registration-order", c.pos(f0.Pos()), fname(f0), "definitions are registered in the order given, nothing is deleted", problem)
+	}
 	nb := c.fn("cmd", "newChordBuilder")
 	if nb == nil {
 		c.missing("cmd.newChordBuilder")
@@ -2171,4 +2208,131 @@ func innermostLoopHeader(b *ssa.BasicBlock) *ssa.BasicBlock {
 		}
 	}
 	return best
+}
+
+// expandReceiverFields: a term of the sum that is a field of the receiver (`p0.tonic`) is replaced by what the type's
+// only constructor stores there, rewritten in terms of the receiver's other fields (a constructor parameter that is
+// itself stored in a field reads as that field): a part of the sum precomputed at construction is the same sum.
+func (c *Ctx) expandReceiverFields(fn *ssa.Function, af *affForm) *affForm {
+	if af == nil || af.bad != "" || len(fn.Params) == 0 {
+		return af
+	}
+	recvT := namedOf(fn.Params[0].Type())
+	if pt, ok := fn.Params[0].Type().Underlying().(*types.Pointer); ok && recvT == nil {
+		recvT = namedOf(pt.Elem())
+	}
+	if recvT == nil {
+		return af
+	}
+	for _, t := range af.nonzero() {
+		field, ok := strings.CutPrefix(t, "p0.")
+		if !ok || strings.ContainsAny(field, ".([") {
+			continue
+		}
+		// the constructors: package-level functions returning the type (or a pointer to it) that store into the field
+		var ctor *ssa.Function
+		var stored ssa.Value
+		paramField := map[int]string{}
+		n := 0
+		for _, f := range c.srcFuncs() {
+			if f.Parent() != nil || f.Signature.Recv() != nil || f.Signature.Results().Len() == 0 || f.Pkg != fn.Pkg {
+				continue
+			}
+			rt := f.Signature.Results().At(0).Type()
+			if p, ok := rt.Underlying().(*types.Pointer); ok && namedOf(rt) == nil {
+				rt = p.Elem()
+			}
+			if namedOf(rt) != recvT {
+				continue
+			}
+			var val ssa.Value
+			pf := map[int]string{}
+			allInstrs(f, func(in ssa.Instruction) {
+				st, ok := in.(*ssa.Store)
+				if !ok {
+					return
+				}
+				fa, ok := st.Addr.(*ssa.FieldAddr)
+				if !ok {
+					return
+				}
+				nm, _, _ := fieldName(fa)
+				if nm == field {
+					val = st.Val
+				}
+				if i := paramIndexOf(f, st.Val); i >= 0 {
+					pf[i] = nm
+				}
+			})
+			if val != nil {
+				n++
+				ctor, stored, paramField = f, val, pf
+			}
+		}
+		if n != 1 {
+			continue
+		}
+		cf := c.affine(ctor, stored)
+		if cf.bad != "" {
+			continue
+		}
+		co := af.terms[t]
+		out := &affForm{terms: map[string]int64{}, k: af.k + co*cf.k}
+		for k2, v2 := range af.terms {
+			if k2 != t {
+				out.terms[k2] += v2
+			}
+		}
+		okAll := true
+		for k2, v2 := range cf.terms {
+			if v2 == 0 {
+				continue
+			}
+			// constructor parameters read as the fields they are stored in
+			name := k2
+			for i, fld := range paramField {
+				name = replaceParam(name, i, "p0."+fld)
+			}
+			if paramMention(name) {
+				okAll = false
+			}
+			out.terms[name] += co * v2
+		}
+		if okAll {
+			af = out
+		}
+	}
+	return af
+}
+
+// replaceParam: every whole occurrence of p<i> in a rendered term becomes repl.
+func replaceParam(term string, i int, repl string) string {
+	p := fmt.Sprintf("p%d", i)
+	var b strings.Builder
+	for j := 0; j < len(term); {
+		if strings.HasPrefix(term[j:], p) {
+			before := j == 0 || !(term[j-1] == '_' || term[j-1] == '.' || ('a' <= term[j-1] && term[j-1] <= 'z') || ('A' <= term[j-1] && term[j-1] <= 'Z') || ('0' <= term[j-1] && term[j-1] <= '9'))
+			after := j+len(p) >= len(term) || !('0' <= term[j+len(p)] && term[j+len(p)] <= '9')
+			if before && after && !strings.HasPrefix(term[j:], repl) {
+				b.WriteString(repl)
+				j += len(p)
+				continue
+			}
+		}
+		b.WriteByte(term[j])
+		j++
+	}
+	return b.String()
+}
+
+// paramMention: the term still names a bare parameter other than the receiver's fields (p1, p2 ... not followed by a field of p0).
+func paramMention(term string) bool {
+	for j := 0; j+1 < len(term); j++ {
+		if term[j] == 'p' && '1' <= term[j+1] && term[j+1] <= '9' {
+			if j == 0 || term[j-1] == '(' || term[j-1] == ',' {
+				return true
+			}
+		}
+	}
+	return false
 }
